@@ -156,6 +156,10 @@ theorem AnchorOnly.frame {b b' : Buf} (h : AnchorOnly b b') : Frame b b' := by
 
 theorem AnchorOnly.wf {b b' : Buf} (h : AnchorOnly b b') (hw : WF b) (ha : ∀ a, b'.anchor = some a → a ≤ b.pos) : WF b' := by
   obtain ⟨a, n, rfl⟩ := h
+  exact ⟨hw.hwin, hw.hpos, fun x hx => Nat.le_trans (ha x hx) hw.hpos, hw.hps, hw.heof, hw.hnofp⟩
+
+theorem AnchorOnly.wf' {b b' : Buf} (h : AnchorOnly b b') (hw : WF b) (ha : ∀ a, b'.anchor = some a → a ≤ b.n) : WF b' := by
+  obtain ⟨a, n, rfl⟩ := h
   exact ⟨hw.hwin, hw.hpos, ha, hw.hps, hw.heof, hw.hnofp⟩
 
 theorem AnchorOnly.same {b b' : Buf} (h : AnchorOnly b b') :
@@ -196,7 +200,7 @@ theorem raiseAnchor_spec (b : Buf) (o : Nat) (h : WF b) :
     · split
       · refine ⟨⟨_, _, rfl⟩, AnchorOnly.wf ⟨_, _, rfl⟩ h ?_⟩
         intro a haa; simp at haa
-      · refine ⟨⟨_, _, rfl⟩, AnchorOnly.wf ⟨_, _, rfl⟩ h ?_⟩
+      · refine ⟨⟨_, _, rfl⟩, AnchorOnly.wf' ⟨_, _, rfl⟩ h ?_⟩
         intro a haa; simp at haa; have := h.hanch a0 ha; omega
     · exact ⟨⟨b.anchor, b.nanchor, rfl⟩, h⟩
 
